@@ -15,6 +15,7 @@
 #include "wrapsimlib.h"
 #include "wrapItem.h"
 #include "wrapBox.h"
+#include "wrapsimlib_deep.h"
 #endif
 #include "simhook.h"
 
@@ -299,6 +300,14 @@ static void do_op(const char *op, int a, int b, const char *text)
         sim_phase(1); SIM_char_ret_len_bufferify(a, buf, 30); sim_phase(0); res_str(buf, 30); free(buf);
     }
 #ifndef SIMC
+    else if (!strcmp(op, "vec_ret_l")) {
+        sim_phase(1); SIM_deep_vec_ret_l_bufferify(a, &d);
+        size_t n = d.size;
+        long *v = (long *)exact(sizeof(long) * n);
+        SIM_ShroudCopyArray(&d, v, n); sim_phase(0);
+        long s = 0; for (size_t i = 0; i < n; i++) s += v[i];
+        res_arr((long)n, s); free(v);
+    }
     else if (!strcmp(op, "arr_fill_out")) {
         double *v = (double *)exact(sizeof(double) * (a + 1)); for (int i = 0; i <= a; i++) v[i] = -1.0;
         sim_phase(1); SIM_arr_fill_out(a, v); sim_phase(0);
